@@ -57,7 +57,7 @@ def check_framing(model, col, rule):
                     and out[2][0] == "bytes" and out[1][1] == f"len({out[2][1]})")
         buf = None
         if ok_frame:
-            b = out[2][1]
+            b = t.resolve(out[2][1])  # `payload = contents.getbuffer()` held in a local
             buf = b.split(".")[0]
             ok_frame = buf in t.local_buffers and b in (f"{buf}.getbuffer()", f"{buf}.getvalue()")
         col.check(ok_frame, rule, key + " framing", "emits byte(sectionId), uleb(len(P)), bytes(P) for one payload buffer P",
@@ -124,6 +124,9 @@ def check_framing(model, col, rule):
               f"function type is written as {[(i[0], i[1]) for i in o]}; expected byte(0x60), vec(params), vec(results) in constructor order", WA, f)
     c, f, t = term_of("Export")
     o = t.out(f.args.args[1].arg)
+    if len(o) == 4 and o[0][0] == "leb" and o[1][0] == "bytes" and o[0][1] == f"len({o[1][1]})" and not o[0][2] and t.resolve(o[1][1]).startswith("PackString("):
+        # WriteString spelled out: uleb(len(b)) bytes(b) with b = PackString(name)
+        o = [("name", t.resolve(o[1][1])[len("PackString("):-1])] + list(o[2:])
     good = len(o) == 3 and o[0][0] == "name" and "name" in o[0][1] and o[1][0] == "byte" and "kind" in o[1][1] and o[2][0] == "leb" and "index" in o[2][1] and not o[2][2]
     col.check(good, rule, f"{WA}::Export.WriteTo", "name, byte(kind), uleb(index)", f"export is written as {[(i[0], i[1]) for i in o]}", WA, f)
     c, f, t = term_of("Local")
@@ -249,6 +252,10 @@ def run(model, col, tier):
         col.check(af.args and bound_to(af.args[0], aft), "R07.3", f"{GEN}::Context.OnEnterFunction function -> type index",
                   "AddFunction receives the index AddFunctionType returned", f"AddFunction receives `{unparse(af.args[0]) if af.args else None}`, not the index of the type just added", GEN, oe)
         ex = ae.args[0] if ae.args else None
+        if isinstance(ex, ast.Name):
+            # the Export object built into a local first
+            v_ex = find_assign(oe, ex.id)
+            ex = v_ex[-1] if len(v_ex) == 1 else ex
         idx = ex.args[0] if isinstance(ex, ast.Call) and ex.args else None
         col.check(idx is not None and bound_to(idx, af), "R07.3", f"{GEN}::Context.OnEnterFunction export -> function index",
                   "the export refers to the index AddFunction returned", f"the export index is `{unparse(idx) if idx is not None else None}`, not the index of the function just added", GEN, oe)
@@ -258,14 +265,15 @@ def run(model, col, tier):
         if status == "raise":
             continue
         cs = [c for c in calls_on_path(evs) if last_attr(c) == "AddCode"]
-        col.check(len(cs) == 1 and "__code" in unparse(cs[0].args[0]), "R07.3", f"{GEN}::Context.OnLeaveFunction body registration", "the function's body is added to the code section once",
+        col.check(len(cs) == 1 and "__code" in unparse(cs[0]), "R07.3", f"{GEN}::Context.OnLeaveFunction body registration", "the function's body is added to the code section once",
                   f"AddCode is called {len(cs)}x on a path", GEN, ol)
     # Module.Add* forward to the right section and return its slot
     for meth, sec, inner in (("AddFunctionType", "TypeSection", "AddType"), ("AddFunction", "FunctionSection", "AddFunction"), ("AddExport", "ExportSection", "Add"), ("AddCode", "CodeSection", "Add")):
         m = mod.own_method(meth)
         calls_ = [c for c in ast.walk(m) if isinstance(c, ast.Call) and isinstance(c.func, ast.Attribute) and isinstance(c.func.value, ast.Attribute)]
         tgt = fcls.get("self." + calls_[0].func.value.attr) if calls_ else None
-        good = bool(calls_) and tgt is not None and tgt.name == sec and calls_[0].func.attr == inner and unparse(calls_[0].args[0]) == m.args.args[1].arg
+        actual0 = (calls_[0].args[0] if calls_[0].args else calls_[0].keywords[0].value if calls_[0].keywords else None) if calls_ else None  # positional or by keyword
+        good = bool(calls_) and tgt is not None and tgt.name == sec and calls_[0].func.attr == inner and actual0 is not None and unparse(actual0) == m.args.args[1].arg
         col.check(good, "R07.3", f"{WA}::Module.{meth}", f"forwards to {sec}.{inner}", f"does not forward its argument to {sec}.{inner}", WA, m)
     for cname, meth in (("TypeSection", "AddType"), ("FunctionSection", "AddFunction")):
         m = model.cls(WA, cname).own_method(meth)
@@ -341,6 +349,9 @@ def run(model, col, tier):
     # roles: the list built from the parameters goes to the signature's parameter slot, the one built from the return type to its result slot
     fti = model.cls(WA, "FunctionType").own_method("__init__")
     ftw = model.cls(WA, "FunctionType").own_method("WriteTo")
+    from ..sem import expand_helpers as _xh75
+
+    ftw = _xh75(model, model.cls(WA, "FunctionType"), ftw, skip=("v_", "WriteTo"))  # a shared "write one vector" helper is read in place
     slots = [a.arg for a in fti.args.args[1:]]
     fields = {}
     for n in ast.walk(fti):
